@@ -191,6 +191,32 @@ func runC02(c *Ctx) {
 		}
 	}
 	c.extra["chain_shapes_enumerated"] = chains
+	// (1b) purity sweep: an impure call in every child position of every multi-child construct, the
+	// other children constant, inside closures without outer references applied to constants (the
+	// shapes the optimizer evaluates at Generate time when it believes the closure is pure)
+	constructs := []string{"max(@0, @1, @2)", "[@0, @1, @2].size()", "{a: @0, b: @1, c: @2}.b", "(@0 + @1) * @2", "(if @0 > 0 then @1 else @2)",
+		"(switch @0 case 1 : @1 default @2)", "(try @0 + @1 catch @2)", "[1, 2, 3][@0 - @0] + @1 + @2", "\"s\".len() + @0 + (0 - @1) + @2",
+		"((p, q, r) -> p + q + r)(@0, @1, @2)", "[1, 2].map(e -> e + @0).sum() + @1 + @2", "{f: (p, q) -> p + q}.f(@0, @1) + @2", "[@0, @1][0] + [1, @2].size()",
+		"abs(@0) + sqr(@1) + min(@2, 5)", "[1, 2].mapReduce(@0, (s, e) -> s + e + @1) + @2", "{k: 1}.put(\"z\", @0).z + @1 + @2"}
+	wrappers := []string{"%s", "(x -> %s)(0)", "let f = x -> %s; f(0) + f(1)", "let c = (x -> %s); [c(0), c(0)].size()", "[0, 1].map(x -> %s).sum()", "func g(x) %s; g(0) + g(1)"}
+	purity := 0
+	for _, cons := range constructs {
+		for pos := 0; pos < 3; pos++ {
+			body := cons
+			for i := 0; i < 3; i++ {
+				fill := itoa(i + 1)
+				if i == pos {
+					fill = "tickI(" + itoa(i+1) + ")"
+				}
+				body = strings.ReplaceAll(body, "@"+itoa(i), fill)
+			}
+			for _, w := range wrappers {
+				cases = append(cases, ccase{fmt.Sprintf(w, body), []string{"a"}, []value.Value{value.Int(1)}, false})
+				purity++
+			}
+		}
+	}
+	c.extra["purity_sweep_programs"] = purity
 	// (2) random programs, constant-rich
 	n := c.Pick(2500, 60000)
 	for i := 0; i < n; i++ {
